@@ -49,6 +49,10 @@ def r10_residual_pairing(ctx):
             loops = ballot_loops(ctx, g)
             for loop, which, filters, bvar in loops:
                 credits_total = 0
+                # the ballot's residual may be kept in a local during the walk and stored once (`residual = ...; ...; b.residual = residual`):
+                # the local stands for <ballot>.residual
+                res_locals = {s_.value.id for s_ in ast.walk(loop) if isinstance(s_, ast.Assign) and len(s_.targets) == 1
+                              and unparse(s_.targets[0]) == '%s.residual' % bvar and isinstance(s_.value, ast.Name)}
                 # the code run per ballot: the loop body, and the local helpers it hands the ballot to (their parameter is the ballot)
                 units = [(loop, bvar)]
                 seen_h = set()
@@ -69,7 +73,7 @@ def r10_residual_pairing(ctx):
                     credits = [s for s in blk if isinstance(s, ast.AugAssign) and isinstance(s.op, ast.Add)
                                and isinstance(s.target, ast.Attribute) and s.target.attr == 'vote']
                     debits = [s for s in blk if isinstance(s, ast.AugAssign) and isinstance(s.op, ast.Sub)
-                              and unparse(s.target) == '%s.residual' % bv_]
+                              and (unparse(s.target) == '%s.residual' % bv_ or (isinstance(s.target, ast.Name) and s.target.id in res_locals))]
                     if not credits and not debits:
                         continue
                     credits_total += len(credits)
@@ -84,7 +88,9 @@ def r10_residual_pairing(ctx):
                           'no credit found', nontrivial=False)
                 # per ballot: residual initialised to the multiplier before the walk, added to E.residual after it
                 top = loop.body
-                inits = [(s, bvar) for s in top if isinstance(s, ast.Assign) and unparse(s.targets[0]) == '%s.residual' % bvar]
+                inits = [(s, bvar) for s in top if isinstance(s, ast.Assign) and unparse(s.targets[0]) == '%s.residual' % bvar
+                         and not (isinstance(s.value, ast.Name) and s.value.id in res_locals)]
+                inits += [(s, bvar) for s in top if isinstance(s, ast.Assign) and isinstance(s.targets[0], ast.Name) and s.targets[0].id in res_locals]
                 # ... or as a top-level statement of a helper the loop body calls unconditionally with the ballot
                 for s in top:
                     if isinstance(s, ast.Expr) and isinstance(s.value, ast.Call) and isinstance(s.value.func, ast.Name):
@@ -109,7 +115,8 @@ def r10_residual_pairing(ctx):
                 ctx.check(ok_init, R, inits[0] if inits else loop, g, 'each ballot starts a distribution with residual = its multiplier',
                           '%s.residual = %s.multiplier, once per ballot' % (bvar, bvar), 'residual initialisation is missing, repeated or not the multiplier')
                 sums = [s for s in top if isinstance(s, ast.AugAssign) and isinstance(s.op, ast.Add) and ctx.canon(s.target, g) == 'E.residual']
-                ok_sum = len(sums) == 1 and unparse(sums[0].value) == '%s.residual' % bvar and top.index(sums[0]) == len(top) - 1
+                ok_sum = len(sums) == 1 and (unparse(sums[0].value) == '%s.residual' % bvar or unparse(sums[0].value) in res_locals) \
+                    and top.index(sums[0]) == len(top) - 1
                 ctx.check(ok_sum, R, sums[0] if sums else loop, g, 'each ballot adds its final residual to the round residual exactly once, after its walk',
                           'E.residual += %s.residual is the last statement of the ballot loop body' % bvar,
                           'E.residual accumulation is missing, repeated or not last in the ballot loop')
